@@ -72,15 +72,16 @@ Proof.
 Qed.
 
 (* ---------- (3, second half) the visible text is preserved whenever the cuts are safe ---------- *)
-Theorem fmt_visible_text : forall s (n : Z) ls,
-  s <> [] -> munged s = true -> safe_cuts s n = true -> wrap s n = Ok ls ->
+Theorem fmt_visible_text : forall s (n : Z) cF mx ls,
+  s <> [] -> munged s = true -> parse s = Ok (cF, mx) -> (Z.of_N mx + 4 <= n)%Z ->
+  safe_cuts s n = true -> wrap s n = Ok ls ->
   concat (map visible ls) = visible s.
 Proof.
-  intros s n ls Hne Hmu Hsafe Hw.
+  intros s n cF mx ls Hne Hmu Hparse Hn4 Hsafe Hw.
   unfold safe_cuts, raw_chunks in Hsafe. unfold wrap, wrap_w in Hw.
-  destruct (parse s) as [[cF mx]|]; [|discriminate]. cbn [bind snd] in Hsafe, Hw.
+  rewrite Hparse in Hsafe, Hw. cbn [bind snd] in Hsafe, Hw.
   destruct (byteTextWrap (split_chunks s) (n - Z.of_N mx)) as [raw|e] eqn:Eb; [|discriminate]. cbn [bind] in Hw.
-  pose proof (byteTextWrap_nonnil s _ raw Hne Eb) as Hnn.
+  pose proof (byteTextWrap_nonnil s (n - Z.of_N mx) raw ltac:(lia) Hne Eb) as Hnn.
   pose proof (wrap_munge s _ raw Eb) as Hcat. rewrite (munge_id s Hmu) in Hcat.
   destruct raw as [|r1 rest]; [cbn in Hcat; congruence|].
   inversion Hnn as [|? ? _ Hnrest]; subst.
